@@ -9,7 +9,7 @@
    identities for the real thing (rectangular mask, convolver_init m K = Ok c, native zero-filled arrays), and the theorems
    without suffix are the resulting hypothesis-free statements about InversionImagingWTilde / InversionImagingMapping. *)
 From Coq Require Import ZArith Reals Lra Lia List Bool Arith.
-From PAV Require Import Base.Res Base.NumOps Base.Sum Model.C03 Model.C03Lib Model.C04 Model.C04Lib Proofs.C04 Proofs.C04b Proofs.C04c Proofs.C04d.
+From PAV Require Import Base.Res Base.NumOps Base.Sum Model.C03 Model.C03Lib Model.C04 Model.C04Lib Model.C04Pre Proofs.C04 Proofs.C04b Proofs.C04c Proofs.C04d Proofs.C04e.
 From PAV Require Model.C06 Proofs.C06.
 Import ListNotations.
 Local Open Scope R_scope.
@@ -347,6 +347,26 @@ Theorem C04_cached_reads_without_del_refuted :
     rrun false objs Bv Dv Fv H (@ist0 ROps) qs <> map (rpure objs Bv Dv Fv H) qs.
 Proof. exact reads_without_del_refuted. Qed.
 
+(* Preloads.curvature_matrix (mapping.py / w_tilde.py: `return copy.copy(self.preloads.curvature_matrix)`; Model/C04Pre.v): the caller's
+   preloaded array [Fp] lives in cell 0 of the heap and TWO instances are made with the same Preloads object, one after the other, their
+   cached properties read in ANY orders [qs1], [qs2] with repeats: every read of both instances returns the pure value (curvature_matrix
+   Fp, curvature_reg_matrix Fp + H, ...) and the caller's array still holds Fp afterwards *)
+Theorem C04_preloaded_curvature_two_instances_pure :
+  forall (objs : list (@lobj ROps)) (Bv : @mat ROps) (Dv : list R) (Fp H : @mat ROps) qs1 qs2,
+  two_instances true objs Bv Dv Fp H qs1 qs2 = (map (rpure objs Bv Dv Fp H) qs1, map (rpure objs Bv Dv Fp H) qs2, Fp).
+Proof. exact two_instances_pure. Qed.
+(* the copy.copy is what makes this true: without it the first instance's curvature_reg_matrix (single regularized object) adds H into
+   the caller's array and the second instance's curvature_matrix is Fp + H *)
+Theorem C04_preloaded_curvature_without_copy_refuted :
+  exists (objs : list (@lobj ROps)) (Bv : @mat ROps) (Dv : list R) (Fp H : @mat ROps) (qs1 qs2 : list rq),
+    two_instances false objs Bv Dv Fp H qs1 qs2 <> (map (rpure objs Bv Dv Fp H) qs1, map (rpure objs Bv Dv Fp H) qs2, Fp).
+Proof. exact two_instances_without_copy_refuted. Qed.
+(* non-vacuity / the model computes: a single regularized object, F = [[2]], H = [[1]], reads (FR, F, FR) then (F, FR) *)
+Example ex_preloaded_two_instances :
+  @two_instances ROps true [@LMapper ROps (@Build_enc ROps [] [] []) [] 1%nat true] [] [] [[2]] [[1]] [RFR; RF; RFR] [RF; RFR]
+  = ([@OutM ROps [[3]]; @OutM ROps [[2]]; @OutM ROps [[3]]], [@OutM ROps [[2]]; @OutM ROps [[3]]], ([[2]] : @mat ROps)).
+Proof. cbn. unfold hcell. cbn. repeat f_equal; lra. Qed.
+
 (* the w_tilde object is handed over separately (dataset.w_tilde, preloads.w_tilde, DatasetInterface.w_tilde).  Made by Imaging.w_tilde
    of ANY dataset with the same mask, psf and noise map -- the object has no component that depends on data -- the instance is the one
    of the theorems above *)
@@ -624,6 +644,8 @@ Print Assumptions C04_mapped_reconstructed_data_mapping_is_B_r.
 Print Assumptions C04_mapped_reconstructed_data_wtilde_is_B_r.
 Print Assumptions C04_cached_reads_return_pure_values.
 Print Assumptions C04_cached_reads_without_del_refuted.
+Print Assumptions C04_preloaded_curvature_two_instances_pure.
+Print Assumptions C04_preloaded_curvature_without_copy_refuted.
 Print Assumptions C04_instance_with_w_tilde_of_same_noise_map.
 Print Assumptions C04_data_vector_independent_of_w_tilde_object.
 Print Assumptions C04_check_noise_map_refuses.
